@@ -627,9 +627,14 @@ def _check_property(prop, tier, seed, sel, scratch, t_start):
             else:
                 # restrict the (unsliced, trace-producing) run to the failing properties: ~2x faster
                 props = []
-                for f in remaining[:2]:
+                # tagged assertions first; names with blanks (generic instantiations) do not survive
+                # Kani's forwarding of --cbmc-args reliably
+                cands = sorted(remaining, key=lambda f: 0 if f.get("cls") == "tagged" else 1)
+                for f in [f for f in cands if " " not in f["name"]][:2]:
                     props += ["--property", f["name"]]
-                r2 = run_kani(crate, scratch, h, prop, ["-Z", "concrete-playback", "--concrete-playback=print", "-Z", "unstable-options", "--cbmc-args"] + props, tag="-cex", extra_cfg=["vp_nocover"], timeout_factor=4, big=True)
+                r2 = {"raw": ""}
+                if props:
+                    r2 = run_kani(crate, scratch, h, prop, ["-Z", "concrete-playback", "--concrete-playback=print", "-Z", "unstable-options", "--cbmc-args"] + props, tag="-cex", extra_cfg=["vp_nocover"], timeout_factor=4, big=True)
                 if not extract_values(r2["raw"]):
                     r2 = run_kani(crate, scratch, h, prop, ["-Z", "concrete-playback", "--concrete-playback=print"], tag="-cex2", extra_cfg=["vp_nocover"], timeout_factor=4, big=True)
                 tests = extract_values(r2["raw"])
